@@ -104,6 +104,9 @@ def edit_finding(d):
     if ctx == "fstring":
         if rule in ("trailing-blank", "blank-line-content") and shape in ("remove", "lines"):
             return "C17-F01"
+        if shape == "remove" and d["removed"].strip(" \t") == "" and d["follows"] in ("\n", "") and "\n" not in d["removed"] \
+                and (nxt is None or nxt.type in (A._mods().FSTRING_MIDDLE, A._mods().FSTRING_END)):
+            return "C17-F01"        # blanks that end a physical line of the literal part (token positions of multi-line middles are unreliable)
         if rule == "after-opener" and shape == "remove" and prev is not None and nxt is not None and prev.string == "{" and nxt.string == "{":
             return "C17-F10"
         if rule == "before-closer" and shape == "remove" and prev is not None and nxt is not None and prev.string == "}" and nxt.string == "}":
@@ -207,5 +210,9 @@ def leak(rnd, fid, open_ids, one_in=10):
     return rnd.randrange(one_in) != 0
 
 
-def avoid_switches(rnd, open_ids):
-    return {fid for fid in FINDINGS if leak(rnd, fid, open_ids)}
+def avoid_switches(rnd, open_ids, one_in=12):
+    """The set of recorded shapes a generated case stays away from: all open ones, except that one case
+    in `one_in` may contain anything (keeps the attribution path exercised)."""
+    if rnd.randrange(one_in) == 0:
+        return set()
+    return {fid for fid in FINDINGS if fid in open_ids}
